@@ -31,6 +31,7 @@ deriving DecidableEq, Repr, Inhabited
 inductive Dst
   | box (m : Nat)        -- a model's mailbox
   | sink (k : Nat)       -- an event sink (never blocks)
+  | dead (m : Nat)       -- a mailbox that was dropped before the simulation started
 deriving DecidableEq, Repr, Inhabited
 
 structure Sub where
@@ -60,6 +61,16 @@ structure Task where
   past : List Nat
 deriving Repr, Inhabited
 
+/-- fatal faults raised while running (`ExecutorError::Panic` with or without a `SendError` payload, `Timeout`) -/
+inductive Fault
+  | panic (m : Nat)                 -- a model handler panicked
+  | noRecipient (t : Nat)           -- task t sent through a port to a dropped mailbox
+  | timeout (m : Nat)               -- a handler of model m overran the step timeout
+deriving DecidableEq, Repr, Inhabited
+
+inductive FaultKind | panic | sleep
+deriving DecidableEq, Repr, Inhabited
+
 structure Prog where
   react : Nat → Nat → List Op       -- model → payload → operations (content-deterministic)
   reply : Nat → Nat → Nat           -- replier model → request payload → reply value
@@ -68,6 +79,7 @@ structure Prog where
   cap : Nat → Nat
   isModel : Nat → Bool              -- task ids that own a mailbox
   inSim : Nat → Bool                -- the mailbox was added to the simulation (its model task exists)
+  faultOn : Nat → Nat → Option FaultKind := fun _ _ => none   -- model → payload → the handler panics / overruns
 
 def upd {α} (f : Nat → α) (i : Nat) (v : α) : Nat → α := fun j => if j = i then v else f j
 
@@ -88,6 +100,7 @@ structure St where
   inits : List Nat                   -- models whose init has started, in order
   sinks : List (Nat × Nat)           -- (sink, payload) in write order
   replies : List (Nat × Nat × List Nat)   -- (task, payload being handled, replies of a completed query operation)
+  fault : Option Fault := none       -- once set, the executor stops: nothing else runs
 
 def St.init : St :=
   { mbox := fun _ => [], task := fun _ => ⟨.notInit, [], [], none, 0, []⟩, nextEid := 0, count := 0, arrLog := [],
@@ -135,6 +148,7 @@ def markReplied (l : List Sub) (e : Nat) (v : Nat) : List Sub :=
   l.map (fun s => if s.eid = e then { s with st := .replied, reply := v } else s)
 
 def step (P : Prog) (l : Label) (s : St) : Option St :=
+  if s.fault.isSome then none else
   match l with
   | .init m =>
     let t := s.task m
@@ -165,6 +179,7 @@ def step (P : Prog) (l : Label) (s : St) : Option St :=
         | .sink k =>
           some { s with task := upd s.task t { tk with cur := setSt tk.cur i .pushed },
                         sinks := s.sinks ++ [(k, sub.payload)] }
+        | .dead _ => some { s with fault := some (.noRecipient t) }
         | .box d =>
           if (s.mbox d).length < P.cap d then
             some { s with
@@ -180,7 +195,12 @@ def step (P : Prog) (l : Label) (s : St) : Option St :=
     let tk := s.task m
     match tk.phase, s.mbox m with
     | .idle, p :: ps =>
+      let flt : Option Fault := match P.faultOn m p.payload with
+        | some .panic => some (.panic m)
+        | some .sleep => some (.timeout m)
+        | none => none
       some { s with
+        fault := flt,
         mbox := upd s.mbox m ps,
         count := s.count - 1,
         handled := s.handled ++ [(m, p.eid)],
@@ -221,13 +241,21 @@ inductive Reach (P : Prog) : St → Prop
 
 inductive Report
   | ok
+  | panic (m : Nat)
+  | noRecipient (m : Option Nat)
+  | timeout
   | deadlock (boxes : List (Nat × Nat))     -- (model, mailbox size) in registration order
   | messageLoss (n : Nat)
 deriving DecidableEq, Repr
 
 /-- `run()`: the executor returns `UnprocessedMessages(count)` iff `count ≠ 0`; the simulation then inspects the
 observers of the mailboxes registered with the simulation (`simBoxes`, in registration order). -/
-def report (s : St) (simBoxes : List Nat) : Report :=
+def report (P : Prog) (s : St) (simBoxes : List Nat) : Report :=
+  match s.fault with
+  | some (.panic m) => .panic m
+  | some (.noRecipient t) => .noRecipient (if P.isModel t then some t else none)
+  | some (.timeout _) => .timeout
+  | none =>
   if s.count = 0 then .ok
   else
     let dl := (simBoxes.filter (fun m => (s.mbox m).length ≠ 0)).map (fun m => (m, (s.mbox m).length))
